@@ -58,6 +58,7 @@ partial def loop (h : IO.FS.Stream) (out : IO.FS.Stream) (handle : List String â
   let toks := tokens line
   if toks.isEmpty then loop h out handle else
   out.putStrLn (handle toks)
+  out.flush
   loop h out handle
 
 end Fdtdx.Proto
